@@ -468,6 +468,13 @@ class RoutesArr(Obj):
 
 class InputShapeKernel(NodeKernel):
     """shared input-shape state for ready_to_evaluate / activate / deactivate"""
+    bounded_fallback = 3
+
+    def bound_sizes(self, I, n):
+        ctx = I.ctx
+        ctx.assume(self.F <= n)
+        for v in (self.vi, self.avi, self.ai, self.si):
+            ctx.assume(v.length(ctx) <= n)
 
     def make_inputs(self, I):
         ctx = I.ctx
